@@ -445,7 +445,7 @@ let do_fmt (op : string) (args : string list) : string =
   | "vt.tidx", [add; h] ->
       let fmt l = if l = [] then "-" else String.concat "," (List.map (fun (o, n) -> string_of_n o ^ ":" ^ string_of_n n) l) in
       (match tidx_from_blob (bytes_of_hex h) with
-       | Ok idx -> "ok " ^ fmt idx ^ " " ^ (match tidx_add_offset (n_of_string add) idx with Ok l -> fmt l | Err -> "err" | Panic -> "panic" | Overflow -> "overflow")
+       | Ok idx -> "ok " ^ fmt idx ^ " " ^ (match tidx_add_offset_v tidx_offset_variant (n_of_string add) idx with Ok l -> fmt l | Err -> "err" | Panic -> "panic" | Overflow -> "overflow")
        | Err -> "err" | Panic -> "panic" | Overflow -> "overflow")
   | "pmdir.find", [es; t] -> (match find_tile pm_arith_variant (entries_of es) (n_of_string t) with Ok (Some e) -> fmt_entry e | Ok None -> "none" | Err -> "err" | Panic -> "panic" | Overflow -> "overflow")
   | "vtindex", [sl] ->
